@@ -26,8 +26,11 @@ InDegree(g, v) == Cardinality({i \in DOMAIN g.tr : g.tr[i][2] # ConceptRole /\ g
 Reentrancies(g) == {<<v, InDegree(g, v) - 1>> : v \in {w \in GVars(g) \cup {GTop(g)} : InDegree(g, w) >= 2}}
 EpiAt(g, t) == IF t \in DOMAIN g.em THEN g.em[t] ELSE <<>>
 EpiViewG(g) == [i \in DOMAIN g.tr |-> EpiAt(g, g.tr[i])]
-MkGraph(tr, xtop, epi) ==      \* epi index-aligned with tr; for a repeated triple the last list wins (dict construction)
-    [tr |-> tr, xtop |-> xtop,
+\* construction gives every role its leading colon; the marker map is keyed by the triples as given (a key written without the
+\* colon therefore never matches a triple of the graph); for a repeated triple the last list wins (dict construction)
+ColonRole(t) == <<t[1], EnsureColon(t[2]), t[3]>>
+MkGraph(tr, xtop, epi) ==
+    [tr |-> [i \in DOMAIN tr |-> ColonRole(tr[i])], xtop |-> xtop,
      em |-> [t \in Range(tr) |-> epi[CHOOSE i \in DOMAIN tr : tr[i] = t /\ \A j \in (i + 1)..Len(tr) : tr[j] # t]]]
 
 (* ---- operations ---- *)
